@@ -476,10 +476,11 @@ func TestCarrierEndsInsideAFrame(t *testing.T) {
 // session first and the server closes second); the footprint after 30 sessions may not exceed the one after 5.
 func TestManySessions(t *testing.T) {
 	carriers := []string{vlib.CarTCP, vlib.CarHTTP, vlib.CarTCPTLS, vlib.CarHTTPS, vlib.CarUDP}
-	if !vlib.Thorough() {
-		carriers = carriers[:4]
-	}
 	for _, car := range carriers {
+		// A datagram carrier has no end-of-connection: the server learns that a client is gone from the multiplexer's
+		// keep-alive (30-60 s), so its goroutines settle only then. The thorough tier waits for that; the quick tier judges
+		// the descriptors only (the server's side of a KCP session owns none).
+		descriptorsOnly := car == vlib.CarUDP && !vlib.Thorough()
 		func() {
 			defer debug.SetGCPercent(debug.SetGCPercent(-1))
 			tgt := vlib.NewTarget("data", vlib.EchoHandler)
@@ -534,13 +535,30 @@ func TestManySessions(t *testing.T) {
 				return
 			}
 			m1 := vlib.Quiesce(8 * time.Second)
+			udp1 := vlib.NonTCPSockets()
+			if car == vlib.CarUDP && !descriptorsOnly {
+				time.Sleep(65 * time.Second) // let the first five sessions time out, so that m1 is a settled level
+				m1 = vlib.Quiesce(8 * time.Second)
+			}
 			if m := run(5, 30); m != "" {
 				fail(m)
 				return
 			}
-			m2 := vlib.QuiesceBelow(vlib.Footprint{Goroutines: m1.Goroutines + slack, FDs: m1.FDs + slack}, 10*time.Second)
+			settle := 10 * time.Second
+			if car == vlib.CarUDP && !descriptorsOnly {
+				settle = 75 * time.Second
+			}
+			m2 := vlib.QuiesceBelow(vlib.Footprint{Goroutines: m1.Goroutines + slack, FDs: m1.FDs + slack}, settle)
 			h["after_5_sessions"], h["after_30_sessions"] = m1.String(), m2.String()
 			vlib.Rec.Case(fmt.Sprintf("many-sessions %s", car), true, []string{"many-sessions", "carrier:" + car}, func() interface{} { return h })
+			if descriptorsOnly {
+				// what the server keeps of a vanished datagram client until the keep-alive (goroutines, the connection to
+				// the target) is not judged here; datagram sockets are: every client session opened one of its own
+				h["judged"] = "datagram sockets only"
+				h["datagram_sockets_after_5_sessions"], h["datagram_sockets_after_30_sessions"] = udp1, vlib.NonTCPSockets()
+				m2 = m1
+				m2.FDs = m1.FDs + vlib.NonTCPSockets() - udp1
+			}
 			if m2.Goroutines > m1.Goroutines+slack || m2.FDs > m1.FDs+slack {
 				fail(fmt.Sprintf("the footprint grows with the number of past sessions: after 5 sessions %v, after 30 sessions %v", m1, m2))
 			}
